@@ -543,7 +543,7 @@ theorem inv_sysExtend {κ : Nat → String} {s : State} (h : InvK κ s) (hb : Bo
         | inr d =>
           have hdon : ((s1.obj d).find "atype").isSome := by
             have := hb1 hb d (by rw [hobjs1]; exact hd d rfl)
-            exact this
+            exact this.1
           apply Post.mono (inv_extendWith hinv1 _ d hdon)
           intro r s2 hm
           exact ⟨Good.of_made hm, fun a ha => by subst ha; exact hm.lt⟩
